@@ -90,6 +90,7 @@ package bytecode
 //@   props C17
 //@   requires node != nil && ref(node) != 0
 //@   requires[assumed-wf-literals] forall(a, *parser.ArrayLiteral, forall(i, int, 0 <= i && i < len(a.Elements) ==> a.Elements[i] != nil && ref(a.Elements[i]) != 0)) && forall(m, *parser.MapLiteral, forall(k, string, has(m.Pairs, k) ==> m.Pairs[k] != nil && ref(m.Pairs[k]) != 0) && forall(i, int, 0 <= i && i < len(m.Order) ==> has(m.Pairs, m.Order[i]))) && forall(g, *parser.GroupExpression, g.Expr != nil && ref(g.Expr) != 0)
+//@   ensures[C17 no-node-compiled-to-nothing] err == nil ==> is(node, *parser.Program) || is(node, *parser.IndexExpression) || is(node, *parser.InferredDeclStmt) || is(node, *parser.AssignmentStmt) || is(node, *parser.BinaryExpression) || is(node, *parser.BreakStmt) || is(node, *parser.BlockStatement) || is(node, *parser.ForStmt) || is(node, *parser.IfStmt) || is(node, *parser.WhileStmt) || is(node, *parser.SliceExpression) || is(node, *parser.UnaryExpression) || is(node, *parser.GroupExpression) || is(node, *parser.Var) || is(node, *parser.NumLiteral) || is(node, *parser.BoolLiteral) || is(node, *parser.StringLiteral) || is(node, *parser.ArrayLiteral) || is(node, *parser.MapLiteral) || is(node, *parser.EmptyStmt)
 //@   modifies allbut compileFrame
 //@   loop 1 modifies allbut compileFrame
 //@   loop 2 modifies allbut compileFrame
